@@ -19,8 +19,9 @@ to the right (`NotWsHead post`). NUL-freeness is *not* needed for the token-sequ
 to read `sigTokens` as "all tokens of the text", and inside an inserted comment.
 
 Parser level: `ParseQuery` is modelled generically over an abstract statement parser that
-consumes significant tokens; the expression parser's regex look-ahead is the one place where a
-comment is *not* equivalent to whitespace (kernel-checked counterexamples at the end).
+consumes significant tokens; the expression parser's regex look-ahead — the one place where a
+comment used to be *not* equivalent to whitespace (finding `comment-before-regex-lookahead`,
+fixed) — skips comments like whitespace (`parseRegex_gap_neutral` and kernel-checked examples).
 -/
 namespace InfluxQL.C16
 open InfluxQL Gen
@@ -289,14 +290,14 @@ theorem parseQuery_missing_semi {ε σ : Type} (ps : List Tok → Except ε (σ 
   simp only [List.cons_append, absParseQueryLoop, h1, h2, if_false, Bool.not_true, Bool.false_eq_true,
     hps', ht.1, ht.2, Bool.not_false, if_true]
 
-/-! ## The regex look-ahead: where a comment is *not* whitespace (known finding)
+/-! ## The regex look-ahead (finding `comment-before-regex-lookahead`, fixed)
 
-`parseRegex` decides by the next *rune* whether a regular expression follows. It skips one WS
-token, then peeks: a `/` starts `ScanRegex` — also when that `/` opens a `/* … */` comment. The
-comment is then read as the regex `*…*` up to its closing `/`. In the implementation
-`regexp.Compile("*c*")` fails at once (`missing argument to repetition operator`); in the model,
-where compilation is an oracle call assumed to succeed, the parse fails at the next token. Either
-way an expression that is accepted with plain whitespace is rejected with a comment in it. -/
+`parseRegex` decides by the next *rune* whether a regular expression follows. Before the fix it
+skipped one WS token and peeked: a `/` started `ScanRegex` — also when that `/` opened a `/* … */`
+comment — and a `-` (of `-- …`) meant "no regex here". Now it skips the WS token, then every
+comment and the WS token after it (`skipCommentsLoop`), and only then peeks. The concrete texts
+that used to be rejected now parse to the same tree as their whitespace-only versions
+(kernel-checked); the general statement is `parseRegex_gap_neutral` below. -/
 
 def parsesTo (text printed : List Char) : Prop :=
   match parseExprText text [] [] with
@@ -311,45 +312,54 @@ def isRejected (text : List Char) : Bool :=
   | .error (.err _) => true
   | _ => false
 
-/-- After the `,` of a call: `f(a,  b)` and `f(a /*c*/, b)` parse to the same call, `f(a, /*c*/ b)`
-is rejected. -/
+/-- After the `,` of a call: `f(a,  b)`, `f(a /*c*/, b)`, `f(a, /*c*/ b)`, `f(a,/*c*/b)` and
+`f(a, --c⏎ b)` all parse to the same call. -/
 theorem comment_before_regex_lookahead_call_arg :
     parsesTo ['f', '(', 'a', ',', ' ', ' ', 'b', ')'] ['f', '(', 'a', ',', ' ', 'b', ')'] ∧
     parsesTo ['f', '(', 'a', ' ', '/', '*', 'c', '*', '/', ',', ' ', 'b', ')'] ['f', '(', 'a', ',', ' ', 'b', ')'] ∧
-    isRejected ['f', '(', 'a', ',', ' ', '/', '*', 'c', '*', '/', ' ', 'b', ')'] = true := by
+    parsesTo ['f', '(', 'a', ',', ' ', '/', '*', 'c', '*', '/', ' ', 'b', ')'] ['f', '(', 'a', ',', ' ', 'b', ')'] ∧
+    parsesTo ['f', '(', 'a', ',', '/', '*', 'c', '*', '/', 'b', ')'] ['f', '(', 'a', ',', ' ', 'b', ')'] ∧
+    parsesTo ['f', '(', 'a', ',', ' ', '-', '-', 'c', '\n', ' ', 'b', ')'] ['f', '(', 'a', ',', ' ', 'b', ')'] := by
   decide +kernel
 
-/-- After the `(` of a call: `f( a)` parses, `f( /*c*/ a)` is rejected. -/
+/-- After the `(` of a call: `f( a)`, `f( /*c*/ a)` and `f(/*c*//*d*/ a)` parse to `f(a)`. -/
 theorem comment_before_regex_lookahead_call_open :
     parsesTo ['f', '(', ' ', 'a', ')'] ['f', '(', 'a', ')'] ∧
-    isRejected ['f', '(', ' ', '/', '*', 'c', '*', '/', ' ', 'a', ')'] = true := by
+    parsesTo ['f', '(', ' ', '/', '*', 'c', '*', '/', ' ', 'a', ')'] ['f', '(', 'a', ')'] ∧
+    parsesTo ['f', '(', '/', '*', 'c', '*', '/', '/', '*', 'd', '*', '/', ' ', 'a', ')'] ['f', '(', 'a', ')'] := by
   decide +kernel
 
-/-- After `=~`: `a =~  /x/` parses, `a =~ /*c*/ /x/` is rejected. -/
+/-- After `=~`: `a =~  /x/`, `a =~ /*c*/ /x/` and `a =~/*c*//x/` parse to `a =~ /x/`. -/
 theorem comment_before_regex_lookahead_regex_op :
     parsesTo ['a', ' ', '=', '~', ' ', ' ', '/', 'x', '/'] ['a', ' ', '=', '~', ' ', '/', 'x', '/'] ∧
-    isRejected ['a', ' ', '=', '~', ' ', '/', '*', 'c', '*', '/', ' ', '/', 'x', '/'] = true := by
+    parsesTo ['a', ' ', '=', '~', ' ', '/', '*', 'c', '*', '/', ' ', '/', 'x', '/'] ['a', ' ', '=', '~', ' ', '/', 'x', '/'] ∧
+    parsesTo ['a', ' ', '=', '~', '/', '*', 'c', '*', '/', '/', 'x', '/'] ['a', ' ', '=', '~', ' ', '/', 'x', '/'] := by
   decide +kernel
 
-/-- Where a regular expression is *required* (after `=~`, `!~`) or is the intended call argument,
-a `-- …` comment in front of it breaks the parse as well: the look-ahead sees `-`, reports "no
-regex here", and the `/` is then scanned as the division operator. -/
+/-- A `-- …` comment in front of a regular expression no longer hides it: after `=~` and as a
+call argument, `--c⏎ /x/` is read like ` /x/`. -/
 theorem line_comment_before_regex_lookahead :
     parsesTo ['a', ' ', '=', '~', ' ', '\n', ' ', '/', 'x', '/'] ['a', ' ', '=', '~', ' ', '/', 'x', '/'] ∧
-    isRejected ['a', ' ', '=', '~', ' ', '-', '-', 'c', '\n', ' ', '/', 'x', '/'] = true ∧
+    parsesTo ['a', ' ', '=', '~', ' ', '-', '-', 'c', '\n', ' ', '/', 'x', '/'] ['a', ' ', '=', '~', ' ', '/', 'x', '/'] ∧
     parsesTo ['f', '(', 'a', ',', ' ', '/', 'x', '/', ')'] ['f', '(', 'a', ',', ' ', '/', 'x', '/', ')'] ∧
-    isRejected ['f', '(', 'a', ',', ' ', '-', '-', 'c', '\n', ' ', '/', 'x', '/', ')'] = true := by
+    parsesTo ['f', '(', 'a', ',', ' ', '-', '-', 'c', '\n', ' ', '/', 'x', '/', ')'] ['f', '(', 'a', ',', ' ', '/', 'x', '/', ')'] := by
   decide +kernel
 
-/-- The two texts of the first counterexample nevertheless have the same significant tokens
-(`comment_insert_tokens` applies): the defect is in the parser's rune look-ahead, not the lexer. -/
+/-- What is still rejected, as it should be: an unterminated `/*` at a look-ahead point (the
+ILLEGAL token is left to the caller), a `--` comment that swallows the rest of the input, and a
+comment in front of something that is not a regular expression where one is required. -/
+theorem comment_at_regex_lookahead_still_rejected :
+    isRejected ['f', '(', 'a', ',', ' ', '/', '*', 'c'] = true ∧
+    isRejected ['a', ' ', '=', '~', ' ', '/', '*'] = true ∧
+    isRejected ['a', ' ', '=', '~', ' ', '-', '-', ' ', '/', 'x', '/'] = true ∧
+    isRejected ['a', ' ', '=', '~', ' ', '/', '*', 'c', '*', '/', ' ', 'b'] = true := by
+  decide +kernel
+
+/-- The texts of the first statement have the same significant tokens (`comment_insert_tokens`
+applies): lexer-level neutrality, of which the parser-level statement above is now the image. -/
 theorem comment_before_regex_lookahead_same_tokens :
     sigTokens (Cursor.ofRunes ['f', '(', 'a', ',', ' ', ' ', 'b', ')']) =
       sigTokens (Cursor.ofRunes ['f', '(', 'a', ',', ' ', '/', '*', 'c', '*', '/', ' ', 'b', ')']) := by
-  decide +kernel
-
-/-- A `-- …` comment at the same place is harmless (`-` is not `/`). -/
-example : parsesTo ['f', '(', 'a', ',', ' ', '-', '-', 'c', '\n', ' ', 'b', ')'] ['f', '(', 'a', ',', ' ', 'b', ')'] := by
   decide +kernel
 
 /-! ## Negative examples: where the side conditions bite (kernel-checked) -/
